@@ -2,12 +2,10 @@
     Library level: chunker (Chunk/Writer.v) -> header creation (Format/HeaderWrite.v) ->
     reader's header path (Format/ParseImpl.v) and the specification decoder (Read/ReadSpec.v).
     Tool level: the zck input scanner (Chunk/ZckTool.v).  The reader's data path is joined in
-    by property C02's theorems (success implies specification content); its completeness
-    (a valid file is read to the end under every buffer-size sequence) is what the
-    differential run of this check covers. *)
+    through the reader completeness theorem (Read/ReadComplete.v) and C02's soundness theorems. *)
 From ZV Require Import Base.Bytes Gen.GenConsts Format.Header Format.ParseImpl Format.HeaderWrite
      Format.HeaderWriteProofs Format.WriteRead Chunk.Buzhash Chunk.BuzhashProofs Chunk.Writer Chunk.WriterProofs
-     Chunk.ZckTool Chunk.ZckToolProofs Read.ReadSpec.
+     Chunk.ZckTool Chunk.ZckToolProofs Read.ReadSpec Read.CompRead Read.ReadComplete Format.RoundTrip.
 Local Open Scope N_scope.
 
 (** T1.1 the write path always terminates: one zck_write call of any size under any legal
@@ -64,6 +62,41 @@ Theorem C01_written_file_verifies_and_decodes :
   spec_read H zdecomp h f = Some (concat (map op_bytes ops)).
 Proof. exact roundtrip_from_chunker. Qed.
 Print Assumptions C01_written_file_verifies_and_decodes.
+
+(** T1.2 (complete round trip on the models): write D through any op sequence under any legal
+    configuration, then open the written file and read it with ANY sequence of non-empty buffer
+    sizes: no read fails; as soon as a read returns 0 the bytes handed out are exactly D and
+    zck_close (data checksum) succeeds; and a read does return 0 once more buffers were offered
+    than D has bytes.  [fuel_bound] iterations of the reader loop per call suffice. *)
+Theorem C01_write_then_read_roundtrip :
+  forall (H : N -> bytes -> bytes) (zcomp : option bytes -> bytes -> bytes)
+         (zdecomp : option bytes -> bytes -> N -> option bytes)
+         (wc : wcfg) (dict : option bytes) manual mn mx (ops : list wop) (F : list bytes) ds cds fuel sizes,
+  (forall t m d, dsize t = Some d -> len (H t m) = d) ->
+  (forall t m, wf_bytes (H t m)) ->
+  (forall d x, wf_bytes x -> wf_bytes (zcomp d x)) ->
+  (forall d x, x <> [] -> zcomp d x <> []) ->
+  dsize (w_hash wc) = Some ds -> dsize (w_chash wc) = Some cds ->
+  (w_comp wc = ZCK_COMP_NONE \/ w_comp wc = ZCK_COMP_ZSTD) ->
+  (w_comp wc = ZCK_COMP_NONE -> forall d x, zcomp d x = x) ->
+  (w_comp wc = ZCK_COMP_ZSTD -> forall d x, zdecomp d (zcomp d x) (len x) = Some x) ->
+  match dict with Some d => d <> [] /\ wf_bytes d | None => True end ->
+  legal_opts mn mx -> Forall (fun o => wf_bytes (op_bytes o)) ops ->
+  write_file (comp_init_cfg manual mn mx) ops = Some F ->
+  wfile_ok wc (written_entries H zcomp wc dict F) = true ->
+  let f := written_file H zcomp wc dict F in
+  let D := concat (map op_bytes ops) in
+  exists h,
+    parse_impl H no_pins f = POk h /\
+    ((fuel_bound h f <= fuel)%nat -> Forall (fun n => 0 < n) sizes ->
+     match read_all H zdecomp h fuel (open_state h f) sizes [] with
+     | (out, e, st') =>
+         e <> Some false /\
+         (e = Some true -> out = D /\ fst (zck_close H h st') = true) /\
+         (len D < N.of_nat (length sizes) -> e = Some true)
+     end).
+Proof. exact write_then_read_roundtrip. Qed.
+Print Assumptions C01_write_then_read_roundtrip.
 
 (** T1.3 the zck tool's input scanner, for every split string and every partition of the
     input into read() results: no crash (no negative or out-of-range length), the bytes handed
